@@ -20,6 +20,7 @@ class SimInverter:
                   touches anything outside gets exception 2 (ILLEGAL DATA ADDRESS)
         """
         self.seed = seed
+        self.k = 0
         self.fill = fill
         self.mode = mode
         self.comm_addr = comm_addr
@@ -45,11 +46,34 @@ class SimInverter:
             return 0
         if self.fill == "ff":
             return 0xFFFF
+        if self.fill == "step":
+            return (self.step_byte(2 * a) << 8) | self.step_byte(2 * a + 1)
+        if self.fill == "bound":
+            x = (a * 0x9E3779B1 + self.seed * 0x85EBCA6B + 0x165667B1) & 0xFFFFFFFF
+            x ^= x >> 13
+            x = (x * 0x2C1B3C6D) & 0xFFFFFFFF
+            x ^= x >> 16
+            return (0x0000, 0xFFFF, 0x7FFF, 0x8000, 0x0001, 0xFFFE, 0xFFFF, 0x0000)[x & 7]
         x = (a * 0x9E3779B1 + self.seed * 0x85EBCA6B + 0x27D4EB2F) & 0xFFFFFFFF
         x ^= x >> 15
         x = (x * 0x2C1B3C6D) & 0xFFFFFFFF
         x ^= x >> 12
         return x & 0xFFFF
+
+    def step_byte(self, j: int) -> int:
+        """Full-period stepping content: over k = 0..65535 every pair of adjacent bytes takes every 16-bit value
+        exactly once (even positions follow the low byte of k, odd positions the high byte plus a low-byte term)."""
+        k = self.k
+        h = (j * 0x9E3779B1 + self.seed * 0x7F4A7C15 + 0x2545F491) & 0xFFFFFFFF
+        h ^= h >> 15
+        h = (h * 0x2C1B3C6D) & 0xFFFFFFFF
+        h ^= h >> 12
+        a = (h & 0xFE) | 1
+        b = (h >> 8) & 0xFF
+        c = (h >> 16) & 0xFF
+        if j & 1 == 0:
+            return ((k & 0xFF) * a + b) & 0xFF
+        return ((k >> 8) * a + (k & 0xFF) * c + b) & 0xFF
 
     def reg(self, a: int) -> int:
         v = self.regs.get(a)
